@@ -7,6 +7,7 @@ import (
 	"go/constant"
 	"go/token"
 	"go/types"
+	"os"
 	"strings"
 
 	"golang.org/x/tools/go/ssa"
@@ -59,7 +60,11 @@ func (g *FuncGen) callCommon(cc *ssa.CallCommon, res ssa.Value, in ssa.Instructi
 	if o := callee.Origin(); o != nil {
 		name = o.String()
 	}
-	if ct := g.prog.Contracts[name]; ct != nil {
+	ct := g.prog.Contracts[name]
+	if ct == nil && strings.Contains(name, "[") {
+		ct = g.prog.Contracts[stripTypeParams(name)] // generic functions/methods are named without type parameters
+	}
+	if ct != nil {
 		return g.applyContract(ct, callee.Signature, args, callee.Signature.Recv() != nil, res, in, name)
 	}
 	var rv *Val
@@ -1206,6 +1211,9 @@ func (g *FuncGen) runGhostAt(callee string, ord int, env *Env, results []Val) {
 	for _, ga := range g.contract.Ghosts {
 		if !strings.HasSuffix(callee, ga.Callee) {
 			continue
+		}
+		if os.Getenv("GOVC_LOOPS") != "" && g.curInstr != nil {
+			fmt.Fprintf(os.Stderr, "CALL %s: %s#%d at %s\n", g.fnName, ga.Callee, ord, g.prog.Fset.Position(g.curInstr.Pos()))
 		}
 		if ga.Ordinal != 0 && ga.Ordinal != ord {
 			continue
